@@ -36,7 +36,7 @@ def pat_str(pat):
 FINDING_FALSY = "C14-F14-literal-path-falsy"
 
 
-def ref_path_match(pat, env, locale, fullpath, falsy=False):
+def ref_path_match(pat, env, locale, fullpath, falsy=False, root=None):
     """independent reference of the documented path-pattern semantics (oracle side):
     `*` stays inside one path segment, `**/` spans any number of directories, a trailing `**`
     matches the rest, `{locale}` is the file's locale, other variables come from the environment;
@@ -46,17 +46,34 @@ def ref_path_match(pat, env, locale, fullpath, falsy=False):
     if falsy and all(isinstance(t, str) for t in pat):
         return False
     rx = []
+    if root is not None:
+        # a relative pattern of a rooted configuration is relative to the configuration's root
+        t0 = pat[0]
+        first = t0 if isinstance(t0, str) else ((locale if t0[1] == "locale" else env[t0[1]]) if t0[0] == "var" else None)
+        if first is not None and not first.startswith("/"):
+            rx.append(re.escape(root.rstrip("/") + "/"))
     for t in pat:
         if isinstance(t, str):
             rx.append(re.escape(t))
         elif t[0] == "var":
-            v = locale if t[1] == "locale" else env[t[1]]
+            v = locale if t[1] == "locale" else (ref_android(locale) if t[1] == "android_locale" else env[t[1]])
             rx.append(re.escape(v))
         elif t[0] == "star":
             rx.append("[^/]*")
         elif t[0] == "starstar":
             rx.append("(?:.+%s)?" % re.escape(t[1]))
     return re.fullmatch("".join(rx), fullpath, re.S) is not None
+
+
+def ref_android(locale):
+    """documented Android resource qualifier of a BCP 47 code (language, language-REGION, with script)"""
+    parts = locale.split("-")
+    parts[0] = {"he": "iw", "id": "in", "yi": "ji"}.get(parts[0], parts[0])
+    if len(parts) == 1:
+        return parts[0]
+    if len(parts) == 2 and len(parts[1]) == 2 and parts[1].isupper():
+        return "%s-r%s" % tuple(parts)
+    return "b+" + "+".join(parts)
 
 
 # ------------------------------------------------------------------ the oracle: reference interpreter
@@ -77,8 +94,8 @@ def ref_key_match(key, entity):
     return key == entity                                  # literal
 
 
-def ref_rule_applies(rule, env, file, entity, falsy=False):
-    if not any(ref_path_match(p, env, file["locale"], file["fullpath"], falsy) for p in rule_paths(rule)):
+def ref_rule_applies(rule, env, file, entity, falsy=False, root=None):
+    if not any(ref_path_match(p, env, file["locale"], file["fullpath"], falsy, root) for p in rule_paths(rule)):
         return False
     if "key" not in rule:
         return entity is None
@@ -101,13 +118,14 @@ def ref_inner(spec, file, entity, falsy=False):
         if ref_verdict(ex, file, None, falsy) == "error":
             return None
     env = spec.get("env", {})
+    root = spec.get("root")
     results = [ref_inner(c, file, entity, falsy) for c in spec["children"]]
     covered = any(("locales" not in p or file["locale"] in p["locales"])
-                  and ref_path_match(p["l10n"], env, file["locale"], file["fullpath"], falsy) for p in spec["paths"])
+                  and ref_path_match(p["l10n"], env, file["locale"], file["fullpath"], falsy, root) for p in spec["paths"])
     if covered:
         own = "error"
         for rule in spec["rules"]:          # the last applicable rule wins
-            if ref_rule_applies(rule, env, file, entity, falsy):
+            if ref_rule_applies(rule, env, file, entity, falsy, root):
                 own = rule["action"]
         results.append(own)
     return max(results, key=lambda a: SEV[a], default=None)
@@ -132,7 +150,12 @@ def subst_root(obj, root):
 
 def build(spec):
     from compare_locales.paths import ProjectConfig
-    cfg = ProjectConfig(None)
+    if spec.get("root"):
+        # a configuration file <root>/l10n.toml with basepath "." : rooted (relative) patterns
+        cfg = ProjectConfig(spec["root"] + "/l10n.toml")
+        cfg.set_root(".")
+    else:
+        cfg = ProjectConfig(None)
     if spec.get("env"):
         cfg.add_environment(**spec["env"])
     if spec["locales"] is not None:
@@ -268,6 +291,72 @@ class Wire:
         return out
 
 
+
+# ------------------------------------------------------------------ wire encoding of the COMPOSED model
+# (c14.filterm): pattern TEXTS, environment and root instead of match tables
+def exc_letter(ex):
+    """exception class of the implementation -> the letter the driver prints for the model's PyErr"""
+    import re as _re
+    from compare_locales.paths.matcher import MissingEnvironment
+    if isinstance(ex, KeyError):
+        return "K"
+    if isinstance(ex, MissingEnvironment):
+        return "M"
+    if isinstance(ex, _re.error):
+        return "R"
+    if isinstance(ex, RecursionError):
+        return "C"
+    if isinstance(ex, TypeError):
+        return "T"
+    if isinstance(ex, IndexError):
+        return "I"
+    return "X"
+
+
+def stored_root(spec):
+    """`Pattern.root` as Matcher stores it for the patterns of this configuration: the os.path
+    normalisation (mozpath.abspath(root) + "/") is outside the model (see Paths/Matcher.lean)"""
+    if not spec.get("root"):
+        return None
+    from compare_locales import mozpath
+    root = mozpath.abspath(mozpath.join(mozpath.dirname(spec["root"] + "/l10n.toml"), "."))
+    return mozpath.abspath(root) + "/"
+
+
+class WireM(Wire):
+    def cfg(self, spec):
+        env = spec.get("env", {})
+        out = ["C", self.locs(spec["locales"]), str(len(env))]
+        for k, v in env.items():
+            out += [enc(k), enc(v)]
+        root = stored_root(spec)
+        out.append("-" if root is None else enc(root))
+        out.append(str(len(spec["paths"])))
+        for p in spec["paths"]:
+            out += [enc(pat_str(p["l10n"])), self.locs(p.get("locales"))]
+        out.append(str(len(spec["rules"])))
+        for r in spec["rules"]:
+            out += ["R", ACT[r["action"]]]
+            if r.get("path_is_list"):
+                out += ["L", str(len(r["path"]))] + [enc(pat_str(p)) for p in r["path"]]
+            else:
+                out += ["1", enc(pat_str(r["path"]))]
+            if "key" not in r:
+                out.append("N")
+            elif isinstance(r["key"], list):
+                out += ["L", str(len(r["key"]))]
+                for k in r["key"]:
+                    out += self.rawkey(k)
+            else:
+                out += ["1"] + self.rawkey(r["key"])
+        out.append(str(len(spec["children"])))
+        for c in spec["children"]:
+            out += self.cfg(c)
+        out.append(str(len(spec["excludes"])))
+        for e in spec["excludes"]:
+            out += self.cfg(e)
+        return out
+
 def all_locales_of(spec, acc):
     if spec["locales"] is not None:
         acc.update(spec["locales"])
@@ -291,13 +380,15 @@ def filter_case(spec, files, entities, order):
     ne = len(entities)
     nq = len(files) * ne
     res = [None] * nq
+    resm = [None] * nq         # the same, an exception shown as the letter of its class (composed stream)
     for q in order:
         f, e = fobjs[q // ne], entities[q % ne]
         try:
             rv = cfg.filter(f) if e is None else cfg.filter(f, e)
-            res[q] = ACT.get(rv, "?")
+            res[q] = resm[q] = ACT.get(rv, "?")
         except Exception as ex:   # noqa
             res[q] = "X"
+            resm[q] = exc_letter(ex)
             last_exc = "%s: %s" % (type(ex).__name__, ex)
     # a second, fresh object answering in canonical order must agree (verdicts do not depend on history)
     cfg2 = build(spec)
@@ -317,9 +408,14 @@ def filter_case(spec, files, entities, order):
     # files with locale None are not part of the model (File.locale is a text there)
     mq = [q for q in range(nq) if files[q // ne]["locale"] is not None]
     toks.append(str(len(mq)))
+    qtoks = []
     for q in mq:
         f, e = files[q // ne], entities[q % ne]
-        toks += [str(w.lidx[f["locale"]]), str(w.pidx[f["fullpath"]]), "-" if e is None else enc(e)]
+        qtoks += [str(w.lidx[f["locale"]]), str(w.pidx[f["fullpath"]]), "-" if e is None else enc(e)]
+    toks += qtoks
+    # the composed model gets the pattern TEXTS (no table computed by the real Matcher)
+    wm = WireM(locales, paths)
+    toksm = ["c14.filterm"] + wm.universe() + wm.cfg(spec) + [str(len(mq))] + qtoks
     oracle = []
     for q in range(nq):
         f, e = files[q // ne], entities[q % ne]
@@ -330,7 +426,54 @@ def filter_case(spec, files, entities, order):
             # root cause probe: does "a pattern without variable/wildcard never matches" explain the answer?
             fnd = FINDING_FALSY if ACT[ref_verdict(spec, f, e, True)] == res[q] else None
             oracle.append([q, exp, res[q], fnd])
-    return {"impl": "".join(res), "model_queries": mq, "line": " ".join(toks), "oracle": oracle, "history": hist}
+    return {"impl": "".join(res), "implm": "".join(resm), "model_queries": mq, "line": " ".join(toks),
+            "line_m": " ".join(toksm), "oracle": oracle, "history": hist}
+
+
+def filterm_case(spec, files, entities, judge):
+    """A case of the composed stream only (rooted configurations, patterns whose matcher raises):
+    the real ProjectConfig answers every query on a fresh-built object; exceptions are reported by
+    class.  `judge`: the reference interpreter defines the answers (no raising pattern by construction)."""
+    ne = len(entities)
+    nq = len(files) * ne
+    locales = sorted(all_locales_of(spec, {f["locale"] for f in files if f["locale"] is not None}))
+    paths = sorted({f["fullpath"] for f in files})
+    wm = WireM(locales, paths)
+    toks = ["c14.filterm"] + wm.universe() + wm.cfg(spec) + [str(nq)]
+    for q in range(nq):
+        f, e = files[q // ne], entities[q % ne]
+        toks += [str(wm.lidx[f["locale"]]), str(wm.pidx[f["fullpath"]]), "-" if e is None else enc(e)]
+    try:
+        cfg = build(spec)
+    except Exception as ex:   # noqa
+        return {"implm": "B" + exc_letter(ex), "line_m": " ".join(toks), "oracle": [], "history": []}
+    fobjs = [mkfile(f) for f in files]
+    res = []
+    for q in range(nq):
+        f, e = fobjs[q // ne], entities[q % ne]
+        try:
+            res.append(ACT.get(cfg.filter(f, e), "?"))
+        except Exception as ex:   # noqa
+            res.append(exc_letter(ex))
+    # the answers must not depend on the query history, exceptions included
+    cfg2 = build(spec)
+    hist = []
+    for q in reversed(range(nq)):
+        f, e = fobjs[q // ne], entities[q % ne]
+        try:
+            rv = ACT.get(cfg2.filter(f, e), "?")
+        except Exception as ex:   # noqa
+            rv = exc_letter(ex)
+        if rv != res[q]:
+            hist.append(q)
+    oracle = []
+    if judge:
+        for q in range(nq):
+            f, e = files[q // ne], entities[q % ne]
+            exp = ACT[ref_verdict(spec, f, e)]
+            if exp != res[q]:
+                oracle.append([q, exp, res[q], None])
+    return {"implm": "".join(res), "line_m": " ".join(toks), "oracle": oracle, "history": hist}
 
 
 def filter_verdicts(spec, files, entities):
